@@ -273,6 +273,21 @@ claim("C14", "other",
       "static analysis: effect (race) analysis + partial evaluation with a simulated executor + order-abstract evaluation",
       "DESIGN.md §5 C14")
 
+claim("C20", "other",
+      "make_key/_make_hashable is interpreted on nested option dictionaries (keys must differ when a nested value differs); "
+      "all get_or_create sites of the service classes (>= 30) are enumerated from the syntax tree and checked by "
+      "history-independent who-reads/who-writes rules: the key contains every parameter the factory reads; the factory "
+      "writes no attribute of self or the domain object (transitively through self-methods); it does not return an "
+      "attribute it has just mutated; every assignment of an attribute read by a memoised factory has a cache reset in the "
+      "same block; key expressions sharing a cache are pairwise non-unifiable (tag, arity or component kind); identity-keyed "
+      "caches hold their referent; every _HitenBase subclass rebuilds its services in __setstate__. Decides the named causes "
+      "of stale/aliased values; does not decide the pickle round trip (declared not applicable: reflective "
+      "__getstate__/dir()/getattr has no static handle).",
+      "Trusted: the list of causes is the rule set (a stale value from another cause is not covered); exemption table "
+      "KEY_EXEMPT_PARAMS; lazy-initialisation and property-setter idioms recognised. 8 known findings keyed by site.",
+      "static analysis: who-reads/who-writes rules over memoisation sites + partial evaluation of make_key",
+      "DESIGN.md §5 C20")
+
 PENDING = ["C02", "C03", "C04", "C05", "C06", "C07", "C08", "C09", "C10", "C11", "C12", "C13", "C14", "C15",
            "C16", "C17", "C18", "C19", "C20"]
 
@@ -297,7 +312,7 @@ def main():
                                "effect/race rules, exact constant tables + rooted-tree order conditions"},
         ],
         "checks": [CHECKS[k] for k in sorted(CHECKS)],
-        "notes": "All checks are static (no hiten import, no test run). Exit 0 held / 1 VIOLATION / 2 ANALYSIS-ERROR "
+        "notes": "C20: the clause 'a save/load round trip preserves all observable state' is not decided (reflective pickling); all other clauses of C20 and all other properties are claimed for the clauses named in DESIGN.md. All checks are static (no hiten import, no test run). Exit 0 held / 1 VIOLATION / 2 ANALYSIS-ERROR "
                  "(anchor vanished or code left the analysable fragment). Known findings: /verif/known_findings.json.",
         "not_applicable": na,
     }
